@@ -77,7 +77,12 @@ package cram
 //@   requires len(b) >= 4
 //@ trusted func ext:github.com/biogo/hts/sam.Header.UnmarshalText
 //@   modifies all(bh)
-//@ trusted func Slice.readFrom
+//@ func Slice.readFrom
+//@   mode bv
+//@   anymode
+//@   props C11
+//@   decoder
+//@   requires s != nil && r != nil
 //@   modifies all(s)
 
 //@ func Block.expandBlockdata
@@ -107,12 +112,12 @@ package cram
 //@   mode bv
 //@   props C11
 //@   decoder
-//@   requires b != nil
+//@   requires b != nil && r != nil
 //@   modifies all(b)
 
 //@ func Container.readFrom
 //@   mode bv
 //@   props C11
 //@   decoder
-//@   requires c != nil
+//@   requires c != nil && r != nil
 //@   modifies all(c)
